@@ -63,6 +63,8 @@ def transforms_for(n, sig, quick):
     T += [("sig", "reverse"), ("sig", "extend")]
     T += [("rewrite-base", k) for k in (REWRITES if not quick else REWRITES[:3] + REWRITES[5:])]
     T += [("rewrite-query", k) for k in (REWRITES if not quick else [REWRITES[0], REWRITES[1], REWRITES[3], REWRITES[5], REWRITES[6]])]
+    # rewrite ONE conditional only (so that two copies of the same conditional stop being syntactically identical)
+    T += [("rewrite-first", k) for k in ("dneg", "cons_and_ante", "andtop")]
     return T
 
 
@@ -98,6 +100,8 @@ def apply_transform(t, sig, kconds, queries):
         return ["u0"] + list(sig) + ["u1", "u2"], kconds, queries
     if kind == "rewrite-base":
         return sig, [(k, rw_cond(c, t[1])) for k, c in kconds], queries
+    if kind == "rewrite-first":
+        return sig, [(k, rw_cond(c, t[1]) if j == 0 else c) for j, (k, c) in enumerate(kconds)], queries
     if kind == "rewrite-query":
         return sig, kconds, [rw_cond(q, t[1]) for q in queries]
     if kind == "pair":
